@@ -1,4 +1,908 @@
-//! C17: harness domain (stub).
+//! C17: each remote call gets its own reply; nothing is left behind afterwards.
+//!
+//! A real `Node` (registered with `FakeEpmd`, connected to the scripted peer of `peer.rs`) runs k concurrent
+//! `rpc_call_raw_with_timeout` calls on a current-thread runtime. The peer reads every REG_SEND to `rex`, takes the
+//! reply pid out of `{Pid, {call, c17, f<i>, [], user}}` and answers per a seeded script: in any order, twice, late
+//! (only after the harness saw the call return — causal, not timed), to a pid nobody has, never, around the timeout,
+//! or it closes the socket. The yield hook (H3) records the step trace with `Node::pending_rpc_count()` (H4) sampled at
+//! every point and makes the tasks yield a seeded number of times there; it can also cancel a call (drop its future)
+//! at a chosen point.
+//!
+//!   T c17trace …  the trace is replayed through the Lean model (`Impl/Rpc.lean`): every observed step must be enabled,
+//!                 the table size must agree at every point, the model must end with the same outcomes
+//!   P c17spec …   the outcomes are judged against the script by the independent Spec (`Spec/Rpc.lean`)
+//!
+//! Timing never decides a verdict: calls that must get their reply have a long timeout (they return as soon as the
+//! reply is there), calls that must time out are never answered before they returned, and for the calls answered
+//! around their timeout both results are admissible.
+use crate::peer::*;
+use crate::rng::Rng;
 use crate::Ctx;
+use edp_node::{Message, Node, Process};
+use erltf::{Atom, ExternalPid, OwnedTerm};
+use std::cell::Cell;
+use std::future::Future;
+use std::pin::Pin;
+use std::sync::{Arc, Mutex};
+use std::task::{Context, Poll};
+use std::time::{Duration, Instant};
 
-pub fn run(_ctx: &mut Ctx) {}
+thread_local! {
+    /// index of the call whose future is being polled on this thread (-1: some other task)
+    static CUR: Cell<i64> = const { Cell::new(-1) };
+}
+
+pub const POINTS: [&str; 5] = ["rpc:before_insert", "rpc:after_insert", "rpc:before_lock", "rpc:after_send", "rpc:timed_out"];
+const SHORT: [&str; 5] = ["bi", "ai", "bl", "as", "to"];
+
+#[derive(Clone, Copy, Debug, PartialEq)]
+pub enum Kind {
+    /// answered once
+    Reply,
+    /// answered twice in a row (bodies differ in the last digit)
+    Dup,
+    /// answered, and once more after the call returned
+    DupLate,
+    /// never answered
+    Never,
+    /// answered only after the call returned
+    Late,
+    /// the answer goes to a pid nobody has: 0 id+100000, 1 serial+1, 2 creation+1
+    Unknown(u8),
+    /// answered about when the timer fires
+    Race,
+    /// the call names a node there is no connection to
+    NoConn,
+    /// second wave: the harness closed the `Connection` object, so the write fails
+    SendErr,
+    /// second wave: the peer closed the socket and the receiver task removed the connection
+    AfterClose,
+    /// the call future is dropped at yield point n (0..4); the peer answers it (if it saw it) after that
+    DropAt(u8),
+    /// the call future is dropped while it waits for the reply
+    DropAwait,
+    /// the peer closes the socket while this call sits between `connections.get` and the write
+    Closing,
+    /// the answer carries the call's numbers under a foreign node name (documented behaviour, no verdict on delivery)
+    ForeignNode,
+}
+
+impl Kind {
+    pub fn code(&self) -> String {
+        match self {
+            Kind::Reply => "R".into(),
+            Kind::Dup => "D".into(),
+            Kind::DupLate => "E".into(),
+            Kind::Never => "N".into(),
+            Kind::Late => "L".into(),
+            Kind::Unknown(v) => format!("U{}", v),
+            Kind::Race => "X".into(),
+            Kind::NoConn => "C".into(),
+            Kind::SendErr => "S".into(),
+            Kind::AfterClose => "A".into(),
+            Kind::DropAt(p) => format!("P{}", p),
+            Kind::DropAwait => "W".into(),
+            Kind::Closing => "K".into(),
+            Kind::ForeignNode => "F".into(),
+        }
+    }
+    fn second_wave(&self) -> bool {
+        matches!(self, Kind::SendErr | Kind::AfterClose)
+    }
+    /// the peer will see the request of this call
+    fn sends_request(&self) -> bool {
+        !matches!(self, Kind::NoConn | Kind::SendErr | Kind::AfterClose | Kind::DropAt(0) | Kind::DropAt(1) | Kind::DropAt(2))
+    }
+    fn timeout_ms(&self) -> u64 {
+        match self {
+            Kind::Reply | Kind::Dup | Kind::DupLate => 10000,
+            Kind::Race => 120,
+            Kind::DropAt(4) => 150,
+            Kind::DropAt(_) | Kind::DropAwait => 8000,
+            Kind::ForeignNode => 300,
+            _ => 160,
+        }
+    }
+}
+
+#[derive(Clone, Copy, Debug, PartialEq)]
+pub enum Ending {
+    Keep,
+    /// the peer closes the socket when its script is done
+    PeerCloses,
+    /// the harness closes the `Connection` object after the first wave
+    LocalClose,
+}
+
+#[derive(Clone, Debug)]
+pub struct Scenario {
+    pub kinds: Vec<Kind>,
+    /// order in which the peer performs its immediate actions (indices into `kinds`)
+    pub order: Vec<usize>,
+    pub ending: Ending,
+    pub yield_seed: u64,
+    pub max_yields: u32,
+    /// a local process exists and the peer sends it this many messages (interleaved with the replies);
+    /// additionally one message to the same numbers under a foreign node name
+    pub proc_msgs: u32,
+    /// (call, point, yields): one long stay at a point (the other points get the seeded 0..max_yields)
+    pub long_stay: Option<(usize, u8, u32)>,
+    /// the peer closes the socket as soon as it has seen this many requests (used with `long_stay`)
+    pub close_after_requests: Option<usize>,
+}
+
+pub struct Shared {
+    log: Mutex<Vec<String>>,
+    node: Mutex<Option<Arc<Node>>>,
+    rng: Mutex<Rng>,
+    max_yields: u32,
+    abort: Mutex<Vec<Option<tokio::task::AbortHandle>>>,
+    drop_at: Vec<Option<u8>>,
+    long_stay: Option<(usize, u8, u32)>,
+    returned: Mutex<Vec<bool>>,
+}
+
+impl Shared {
+    fn count(&self) -> usize {
+        self.node.lock().unwrap().as_ref().map(|n| n.pending_rpc_count()).unwrap_or(0)
+    }
+    fn push(&self, s: String) {
+        self.log.lock().unwrap().push(s);
+    }
+    fn n_route(&self) -> usize {
+        self.log.lock().unwrap().iter().filter(|e| e.starts_with("rt.")).count()
+    }
+    fn n_peer_routed(&self) -> usize {
+        self.log.lock().unwrap().iter().filter(|e| e.starts_with("pm.")).count()
+    }
+}
+
+/// The yield hook: records the point with the table size and decides how long the task stays there.
+fn hook(sh: &Arc<Shared>, name: &str) -> u32 {
+    let cur = CUR.with(|c| c.get());
+    let cnt = sh.count();
+    if name == "route:before_pending_remove" {
+        let mut n = sh.rng.lock().unwrap().below(sh.max_yields as u64 + 1) as u32;
+        if let Some((_, 5, k)) = sh.long_stay {
+            n = k;
+        }
+        sh.push(format!("rt.{}.{}", n, cnt));
+        return n;
+    }
+    let Some(p) = POINTS.iter().position(|x| *x == name) else { return 0 };
+    let who = if cur < 0 { 99 } else { cur as usize };
+    sh.push(format!("{}.{}.{}", SHORT[p], who, cnt));
+    let mut n = sh.rng.lock().unwrap().below(sh.max_yields as u64 + 1) as u32;
+    if let Some((c, pt, k)) = sh.long_stay {
+        if c == who && pt as usize == p {
+            n = k;
+        }
+    }
+    if who < sh.drop_at.len() && sh.drop_at[who] == Some(p as u8) {
+        if let Some(h) = sh.abort.lock().unwrap()[who].as_ref() {
+            h.abort();
+        }
+        n = n.max(1);
+    }
+    n
+}
+
+/// Wraps a call future: tells the hook which call is running, records its result, records its being dropped.
+struct Tagged<F: Future<Output = String>> {
+    idx: usize,
+    fut: Option<Pin<Box<F>>>,
+    sh: Arc<Shared>,
+}
+
+impl<F: Future<Output = String>> Future for Tagged<F> {
+    type Output = String;
+    fn poll(mut self: Pin<&mut Self>, cx: &mut Context<'_>) -> Poll<String> {
+        let idx = self.idx;
+        let prev = CUR.with(|c| c.replace(idx as i64));
+        let r = match self.fut.as_mut() {
+            Some(f) => f.as_mut().poll(cx),
+            None => Poll::Pending,
+        };
+        CUR.with(|c| c.set(prev));
+        if let Poll::Ready(o) = &r {
+            self.fut = None;
+            let cnt = self.sh.count();
+            self.sh.push(format!("ret.{}.{}.{}", idx, o, cnt));
+            self.sh.returned.lock().unwrap()[idx] = true;
+        }
+        r
+    }
+}
+
+impl<F: Future<Output = String>> Drop for Tagged<F> {
+    fn drop(&mut self) {
+        if let Some(f) = self.fut.take() {
+            drop(f);
+            let cnt = self.sh.count();
+            self.sh.push(format!("dr.{}.{}", self.idx, cnt));
+            self.sh.returned.lock().unwrap()[self.idx] = true;
+        }
+    }
+}
+
+fn tag_of(t: &OwnedTerm) -> Option<i64> {
+    if let OwnedTerm::Tuple(v) = t {
+        if v.len() == 2 {
+            if let (OwnedTerm::Atom(a), OwnedTerm::Integer(n)) = (&v[0], &v[1]) {
+                if a.as_str() == "rex" {
+                    return Some(*n);
+                }
+            }
+        }
+    }
+    None
+}
+
+fn outcome_text(r: Result<OwnedTerm, edp_node::Error>) -> String {
+    match r {
+        Ok(t) => match tag_of(&t) {
+            Some(n) => format!("reply:{}", n),
+            None => "reply:garbage".into(),
+        },
+        Err(edp_node::Error::RpcTimeout(_)) => "timeout".into(),
+        Err(edp_node::Error::RpcCancelled) => "cancelled".into(),
+        Err(edp_node::Error::NodeNotConnected(_)) => "noconn".into(),
+        Err(edp_node::Error::Client(_)) => "senderr".into(),
+        Err(_) => "other".into(),
+    }
+}
+
+/// a local process that remembers the tags it was sent
+struct Recorder {
+    got: Arc<Mutex<Vec<i64>>>,
+}
+
+impl Process for Recorder {
+    async fn handle_message(&mut self, msg: Message) -> edp_node::Result<()> {
+        if let Message::Regular { body, .. } = msg {
+            self.got.lock().unwrap().push(tag_of(&body).unwrap_or(999_999_999));
+        }
+        Ok(())
+    }
+}
+
+/// `{Pid, {call, c17, f<i>, [], user}}` -> (i, Pid)
+fn parse_request(frame: &[u8]) -> Option<(usize, ExternalPid)> {
+    if frame.first() != Some(&112) {
+        return None;
+    }
+    let (_control, rest) = erltf::decoder::decode_with_trailing(&frame[1..]).ok()?;
+    let (payload, _) = erltf::decoder::decode_with_trailing(rest).ok()?;
+    let OwnedTerm::Tuple(v) = payload else { return None };
+    let OwnedTerm::Pid(p) = v.first()? else { return None };
+    let OwnedTerm::Tuple(c) = v.get(1)? else { return None };
+    let OwnedTerm::Atom(f) = c.get(2)? else { return None };
+    let i: usize = f.as_str().strip_prefix('f')?.parse().ok()?;
+    Some((i, p.clone()))
+}
+
+fn reply_frame(to: &ExternalPid, tag: i64) -> Vec<u8> {
+    let control = OwnedTerm::Tuple(vec![OwnedTerm::Integer(2), OwnedTerm::Atom(Atom::new("")), OwnedTerm::Pid(to.clone())]);
+    let payload = OwnedTerm::Tuple(vec![OwnedTerm::Atom(Atom::new("rex")), OwnedTerm::Integer(tag)]);
+    pass_through(&control, Some(&payload))
+}
+
+/// Cancel-safe frame reader: `read` loses nothing when its timeout fires (unlike `read_u32` + `read_exact`).
+struct Frames {
+    buf: Vec<u8>,
+    closed: bool,
+}
+
+impl Frames {
+    fn take(&mut self) -> Option<Vec<u8>> {
+        if self.buf.len() < 4 {
+            return None;
+        }
+        let n = u32::from_be_bytes([self.buf[0], self.buf[1], self.buf[2], self.buf[3]]) as usize;
+        if self.buf.len() < 4 + n {
+            return None;
+        }
+        let f = self.buf[4..4 + n].to_vec();
+        self.buf.drain(..4 + n);
+        Some(f)
+    }
+    /// next frame (ticks included as empty frames), `None` when `wait` passes first or the socket is closed
+    async fn next(&mut self, pc: &mut PeerConn, wait: Duration) -> Option<Vec<u8>> {
+        use tokio::io::AsyncReadExt;
+        let end = Instant::now() + wait;
+        loop {
+            if let Some(f) = self.take() {
+                return Some(f);
+            }
+            let now = Instant::now();
+            if self.closed || now >= end {
+                return None;
+            }
+            let mut tmp = [0u8; 4096];
+            match tokio::time::timeout(end - now, pc.stream.read(&mut tmp)).await {
+                Ok(Ok(0)) | Ok(Err(_)) => self.closed = true,
+                Ok(Ok(n)) => self.buf.extend_from_slice(&tmp[..n]),
+                Err(_) => return None,
+            }
+        }
+    }
+}
+
+struct PeerPlan {
+    kinds: Vec<Kind>,
+    order: Vec<usize>,
+    ending: Ending,
+    proc_pid: Option<ExternalPid>,
+    proc_msgs: u32,
+    local_name: String,
+    close_after_requests: Option<usize>,
+}
+
+struct PeerReport {
+    pids: Vec<Option<ExternalPid>>,
+    proc_sent: Vec<i64>,
+    handshake_ok: bool,
+}
+
+async fn peer_send(pc: &mut PeerConn, sh: &Shared, local: &str, to: &ExternalPid, tag: i64) {
+    let node = if to.node.as_str() == local { 0 } else { 1 };
+    sh.push(format!("pm.{}.{}.{}.{}.{}", node, to.id, to.serial, to.creation, tag));
+    pc.send_frame(&reply_frame(to, tag)).await;
+}
+
+async fn peer_task(listener: tokio::net::TcpListener, cfg: PeerCfg, plan: PeerPlan, sh: Arc<Shared>,
+                   done: tokio::sync::oneshot::Sender<PeerReport>, mut release: tokio::sync::oneshot::Receiver<()>) {
+    let k = plan.kinds.len();
+    let mut rep = PeerReport { pids: vec![None; k], proc_sent: vec![], handshake_ok: false };
+    let Some(mut pc) = accept_and_handshake(&listener, &cfg).await else {
+        let _ = done.send(rep);
+        return;
+    };
+    rep.handshake_ok = pc.hs.completed;
+    let expect = plan.kinds.iter().filter(|x| x.sends_request() && !x.second_wave()).count();
+    // A: collect the requests of the first wave
+    let t0 = Instant::now();
+    let mut seen: Vec<(usize, Instant)> = vec![];
+    let mut frames = Frames { buf: vec![], closed: false };
+    while seen.len() < expect && t0.elapsed() < Duration::from_millis(2500) {
+        if let Some(n) = plan.close_after_requests {
+            if seen.len() >= n {
+                break;
+            }
+        }
+        match frames.next(&mut pc, Duration::from_millis(20)).await {
+            Some(f) => {
+                if let Some((i, p)) = parse_request(&f) {
+                    if i < k && rep.pids[i].is_none() {
+                        rep.pids[i] = Some(p);
+                        seen.push((i, Instant::now()));
+                    }
+                }
+            }
+            None => {
+                if frames.closed {
+                    break;
+                }
+            }
+        }
+    }
+    if plan.close_after_requests.is_some() {
+        drop(pc);
+        let _ = done.send(rep);
+        return;
+    }
+    // B: immediate actions in the scripted order, messages for the local process in between
+    let mut proc_left = plan.proc_msgs;
+    let mut proc_tag = 900_000i64;
+    for &i in &plan.order {
+        if let (Some(pp), true) = (&plan.proc_pid, proc_left > 0) {
+            proc_left -= 1;
+            proc_tag += 1;
+            rep.proc_sent.push(proc_tag);
+            // addressed to a live local process: must reach that process and nobody else; no route event
+            sh.push(format!("pp.{}.{}.{}.{}", pp.id, pp.serial, pp.creation, proc_tag));
+            pc.send_frame(&reply_frame(pp, proc_tag)).await;
+        }
+        let Some(p) = rep.pids[i].clone() else { continue };
+        let base = (i as i64) * 10;
+        match plan.kinds[i] {
+            Kind::Reply | Kind::DupLate => peer_send(&mut pc, &sh, &plan.local_name, &p, base).await,
+            Kind::Dup => {
+                peer_send(&mut pc, &sh, &plan.local_name, &p, base).await;
+                peer_send(&mut pc, &sh, &plan.local_name, &p, base + 1).await;
+            }
+            Kind::ForeignNode => {
+                let mut q = p.clone();
+                q.node = Atom::new("elsewhere@127.0.0.1");
+                peer_send(&mut pc, &sh, &plan.local_name, &q, base + 6).await;
+            }
+            Kind::Unknown(v) => {
+                let mut q = p.clone();
+                match v {
+                    0 => q.id += 100_000,
+                    1 => q.serial += 1,
+                    _ => q.creation += 1,
+                }
+                peer_send(&mut pc, &sh, &plan.local_name, &q, base + 5).await;
+            }
+            _ => {}
+        }
+    }
+    if let Some(pp) = &plan.proc_pid {
+        // the process's numbers under a foreign node name: not that process; and no call has these numbers
+        let mut q = pp.clone();
+        q.node = Atom::new("elsewhere@127.0.0.1");
+        peer_send(&mut pc, &sh, &plan.local_name, &q, 990_000).await;
+    }
+    // C: answers around the timer
+    let mut racers: Vec<(usize, Instant)> = seen.iter().filter(|(i, _)| plan.kinds[*i] == Kind::Race).cloned().collect();
+    racers.sort_by_key(|x| x.1);
+    for (i, at) in racers {
+        let due = at + Duration::from_millis(plan.kinds[i].timeout_ms());
+        let now = Instant::now();
+        if due > now {
+            tokio::time::sleep(due - now).await;
+        }
+        if let Some(p) = rep.pids[i].clone() {
+            peer_send(&mut pc, &sh, &plan.local_name, &p, (i as i64) * 10).await;
+        }
+    }
+    // D: answers that must come after the call is over (the harness tells us when it is)
+    let mut late: Vec<usize> = (0..k)
+        .filter(|&i| matches!(plan.kinds[i], Kind::Late | Kind::DupLate | Kind::DropAt(_) | Kind::DropAwait) && rep.pids[i].is_some())
+        .collect();
+    let t1 = Instant::now();
+    while !late.is_empty() && t1.elapsed() < Duration::from_millis(8000) {
+        let ret = sh.returned.lock().unwrap().clone();
+        let mut rest = vec![];
+        for i in late {
+            if ret[i] {
+                let p = rep.pids[i].clone().unwrap();
+                peer_send(&mut pc, &sh, &plan.local_name, &p, (i as i64) * 10 + 2).await;
+            } else {
+                rest.push(i);
+            }
+        }
+        late = rest;
+        if !late.is_empty() {
+            tokio::time::sleep(Duration::from_millis(5)).await;
+        }
+    }
+    // E: ending
+    if plan.ending == Ending::PeerCloses {
+        // give the receiver the time to take what was sent, then close
+        let t2 = Instant::now();
+        while sh.n_route() < sh.n_peer_routed() && t2.elapsed() < Duration::from_millis(10_000) {
+            tokio::time::sleep(Duration::from_millis(3)).await;
+        }
+        sh.push("pc".into());
+        drop(pc);
+        let _ = done.send(rep);
+        return;
+    }
+    let _ = done.send(rep);
+    // keep the socket open (and drained) until the scenario is over
+    loop {
+        tokio::select! {
+            _ = &mut release => break,
+            f = frames.next(&mut pc, Duration::from_millis(50)) => {
+                if f.is_none() && frames.closed {
+                    let _ = (&mut release).await;
+                    break;
+                }
+            }
+        }
+    }
+}
+
+pub struct Outcome {
+    pub creation: u32,
+    pub pids: Vec<Option<ExternalPid>>,
+    pub trace: Vec<String>,
+    pub outcomes: Vec<String>,
+    pub fin: usize,
+    pub proc_sent: Vec<i64>,
+    pub proc_got: Vec<i64>,
+    pub setup_ok: bool,
+}
+
+static CASE: std::sync::atomic::AtomicUsize = std::sync::atomic::AtomicUsize::new(0);
+/// scenarios whose result already looks wrong to the harness (only used to stop a failing run early)
+static SUSPICIOUS: std::sync::atomic::AtomicUsize = std::sync::atomic::AtomicUsize::new(0);
+
+async fn scenario(sc: Scenario) -> Outcome {
+    let case = CASE.fetch_add(1, std::sync::atomic::Ordering::SeqCst) + 1;
+    let k = sc.kinds.len();
+    let epmd = FakeEpmd::start().await;
+    let short = format!("c17p{}", case);
+    let peer_name = format!("{}@127.0.0.1", short);
+    let local_name = format!("c17n{}@127.0.0.1", case);
+    let listener = listen_as(&epmd, &short).await;
+    let mut node = Node::new(local_name.clone(), "secret");
+    let mut out = Outcome { creation: 0, pids: vec![None; k], trace: vec![], outcomes: vec!["unstarted".into(); k], fin: 0,
+                            proc_sent: vec![], proc_got: vec![], setup_ok: false };
+    if node.start(0).await.is_err() {
+        return out;
+    }
+    let node = Arc::new(node);
+    out.creation = node.creation();
+    let mut drop_at = vec![None; k];
+    for (i, kd) in sc.kinds.iter().enumerate() {
+        if let Kind::DropAt(p) = kd {
+            drop_at[i] = Some(*p);
+        }
+    }
+    let sh = Arc::new(Shared {
+        log: Mutex::new(vec![]),
+        node: Mutex::new(Some(node.clone())),
+        rng: Mutex::new(Rng::new(sc.yield_seed)),
+        max_yields: sc.max_yields,
+        abort: Mutex::new((0..k).map(|_| None).collect()),
+        drop_at,
+        long_stay: sc.long_stay,
+        returned: Mutex::new(vec![false; k]),
+    });
+    // a local process (its pid is the allocator's first)
+    let got = Arc::new(Mutex::new(vec![]));
+    let mut proc_pid = None;
+    if sc.proc_msgs > 0 {
+        match node.spawn(Recorder { got: got.clone() }).await {
+            Ok(p) => {
+                sh.push(format!("sp.{}.{}.{}", p.id, p.serial, p.creation));
+                proc_pid = Some(p);
+            }
+            Err(_) => return out,
+        }
+    }
+    let plan = PeerPlan { kinds: sc.kinds.clone(), order: sc.order.clone(), ending: sc.ending, proc_pid: proc_pid.clone(),
+                          proc_msgs: sc.proc_msgs, local_name: local_name.clone(), close_after_requests: sc.close_after_requests };
+    let (done_tx, done_rx) = tokio::sync::oneshot::channel();
+    let (rel_tx, rel_rx) = tokio::sync::oneshot::channel();
+    let peer = tokio::spawn(peer_task(listener, PeerCfg::new(&peer_name, "secret"), plan, sh.clone(), done_tx, rel_rx));
+    if node.connect(peer_name.clone()).await.is_err() {
+        peer.abort();
+        return out;
+    }
+    out.setup_ok = true;
+    let sh2 = sh.clone();
+    edp_client::verif_hooks::set_yield_hook(Some(Box::new(move |name: &str| hook(&sh2, name))));
+
+    let mut handles: Vec<Option<tokio::task::JoinHandle<String>>> = (0..k).map(|_| None).collect();
+    let start_wave = |wave2: bool, handles: &mut Vec<Option<tokio::task::JoinHandle<String>>>| {
+        for i in 0..k {
+            if sc.kinds[i].second_wave() != wave2 {
+                continue;
+            }
+            let n = node.clone();
+            let target = if sc.kinds[i] == Kind::NoConn { "nobody@127.0.0.1".to_string() } else { peer_name.clone() };
+            let to = Duration::from_millis(sc.kinds[i].timeout_ms());
+            let fut = async move { outcome_text(n.rpc_call_raw_with_timeout(&target, "c17", &format!("f{}", i), vec![], to).await) };
+            let h = tokio::spawn(Tagged { idx: i, fut: Some(Box::pin(fut)), sh: sh.clone() });
+            sh.abort.lock().unwrap()[i] = Some(h.abort_handle());
+            handles[i] = Some(h);
+        }
+    };
+    let collect = |i: usize, r: Result<Result<String, tokio::task::JoinError>, tokio::time::error::Elapsed>| -> String {
+        let _ = i;
+        match r {
+            Ok(Ok(o)) => o,
+            Ok(Err(e)) if e.is_cancelled() => "dropped".into(),
+            Ok(Err(_)) => "panic".into(),
+            Err(_) => "hang".into(),
+        }
+    };
+    start_wave(false, &mut handles);
+    // calls dropped while they wait for the reply
+    for i in 0..k {
+        if sc.kinds[i] == Kind::DropAwait {
+            let sh3 = sh.clone();
+            tokio::spawn(async move {
+                tokio::time::sleep(Duration::from_millis(60)).await;
+                if let Some(h) = sh3.abort.lock().unwrap()[i].as_ref() {
+                    h.abort();
+                }
+            });
+        }
+    }
+    for i in 0..k {
+        if let Some(h) = handles[i].take() {
+            out.outcomes[i] = collect(i, tokio::time::timeout(Duration::from_millis(30000), h).await);
+        }
+    }
+    let rep = tokio::time::timeout(Duration::from_millis(30000), done_rx).await.ok().and_then(|r| r.ok());
+    // second wave
+    if sc.kinds.iter().any(|x| x.second_wave()) {
+        match sc.ending {
+            Ending::LocalClose => {
+                let conn = node.connections().get(&peer_name).map(|c| c.value().clone());
+                if let Some(c) = conn {
+                    let _ = c.lock().await.close().await;
+                }
+            }
+            _ => {
+                let t = Instant::now();
+                while node.connections().contains_key(&peer_name) && t.elapsed() < Duration::from_millis(3000) {
+                    tokio::time::sleep(Duration::from_millis(3)).await;
+                }
+            }
+        }
+        start_wave(true, &mut handles);
+        for i in 0..k {
+            if let Some(h) = handles[i].take() {
+                out.outcomes[i] = collect(i, tokio::time::timeout(Duration::from_millis(30000), h).await);
+            }
+        }
+    }
+    // let the receiver finish with what the peer sent, then look at the table
+    let sc_closed_early = sc.close_after_requests.is_some();
+    let t = Instant::now();
+    while !sc_closed_early && sh.n_route() < sh.n_peer_routed() && t.elapsed() < Duration::from_millis(10_000) {
+        tokio::time::sleep(Duration::from_millis(3)).await;
+    }
+    tokio::time::sleep(Duration::from_millis(5)).await;
+    tokio::time::sleep(Duration::from_millis(5)).await;
+    let fin = node.pending_rpc_count();
+    sh.push(format!("fin.{}", fin));
+    edp_client::verif_hooks::set_yield_hook(None);
+    let _ = rel_tx.send(());
+    out.fin = fin;
+    if let Some(r) = rep {
+        out.pids = r.pids;
+        out.proc_sent = r.proc_sent;
+        out.setup_ok = out.setup_ok && r.handshake_ok;
+    } else {
+        out.setup_ok = false;
+    }
+    out.proc_got = got.lock().unwrap().clone();
+    out.trace = sh.log.lock().unwrap().clone();
+    *sh.node.lock().unwrap() = None;
+    out
+}
+
+/// Runs one scenario on its own thread and runtime; `None` when it does not come back (a task blocked the thread).
+pub fn run_scenario(sc: &Scenario) -> Option<Outcome> {
+    run_scenario_within(sc, Duration::from_secs(120))
+}
+
+pub fn run_scenario_within(sc: &Scenario, limit: Duration) -> Option<Outcome> {
+    let (tx, rx) = std::sync::mpsc::channel();
+    let sc2 = sc.clone();
+    std::thread::spawn(move || {
+        let rt = tokio::runtime::Builder::new_current_thread().enable_all().build().unwrap();
+        let o = rt.block_on(scenario(sc2));
+        let _ = tx.send(o);
+    });
+    rx.recv_timeout(limit).ok()
+}
+
+fn pid_text(p: &Option<ExternalPid>) -> String {
+    match p {
+        Some(p) => format!("{}.{}.{}", p.id, p.serial, p.creation),
+        None => "-".into(),
+    }
+}
+
+fn list<T: ToString>(v: &[T]) -> String {
+    if v.is_empty() { "-".into() } else { v.iter().map(|x| x.to_string()).collect::<Vec<_>>().join(",") }
+}
+
+pub fn script_text(sc: &Scenario) -> String {
+    format!("{}/{}/{}", list(&sc.kinds.iter().map(|k| k.code()).collect::<Vec<_>>()), list(&sc.order),
+            match sc.ending { Ending::Keep => "keep", Ending::PeerCloses => "peercloses", Ending::LocalClose => "localclose" })
+}
+
+/// Writes the lines of one scenario.
+fn emit(ctx: &mut Ctx, sc: &Scenario, o: &Option<Outcome>) {
+    let script = script_text(sc);
+    let Some(o) = o else {
+        SUSPICIOUS.fetch_add(1, std::sync::atomic::Ordering::SeqCst);
+        ctx.fail("c17-call-never-returns", &format!("script={} seed={} the runtime thread stopped making progress", script, sc.yield_seed));
+        return;
+    };
+    if !o.setup_ok {
+        ctx.count("setup_failed");
+        return;
+    }
+    let odd = o.fin != 0
+        || o.outcomes.iter().zip(&sc.kinds).any(|(oc, kd)| {
+            oc == "hang" || oc == "cancelled" || oc == "panic" || (matches!(kd, Kind::Reply | Kind::Dup | Kind::DupLate) && !oc.starts_with("reply:"))
+        });
+    if odd {
+        SUSPICIOUS.fetch_add(1, std::sync::atomic::Ordering::SeqCst);
+    }
+    ctx.add("traces_validated", 1);
+    ctx.add("trace_events", o.trace.len() as u64);
+    ctx.add("calls", sc.kinds.len() as u64);
+    for kd in &sc.kinds {
+        ctx.count(&format!("kind_{}", kd.code()));
+    }
+    for oc in &o.outcomes {
+        ctx.count(&format!("outcome_{}", oc.split(':').next().unwrap_or("")));
+    }
+    let outs = o.outcomes.join(";");
+    if sc.kinds.contains(&Kind::ForeignNode) {
+        // keys omit the node name: what the code does with such a message is recorded, not judged (notes/C17.md)
+        for (i, kd) in sc.kinds.iter().enumerate() {
+            if *kd == Kind::ForeignNode {
+                ctx.count(if o.outcomes[i].starts_with("reply:") { "foreign_node_reply_delivered" } else { "foreign_node_reply_not_delivered" });
+            }
+        }
+        ctx.prop("gen", &format!("c17spec {} {} {} {} {}", script.replace('/', " "), outs, o.fin, list(&o.proc_sent), list(&o.proc_got)), "ok");
+        return;
+    }
+    let req = format!("c17trace {} {} {}", o.creation, list(&o.pids.iter().map(pid_text).collect::<Vec<_>>()), o.trace.join(","));
+    ctx.tie("trace", &req, &format!("ok out={} fin={} proc={}", outs, o.fin, list(&o.proc_got)));
+    // failure class: scenarios in which a call future is dropped by its owner are told apart from the rest
+    let class = if sc.kinds.iter().any(|k| matches!(k, Kind::DropAt(_) | Kind::DropAwait)) { "c17-with-dropped-call" } else { "gen" };
+    ctx.prop(class, &format!("c17spec {} {} {} {} {}", script.replace('/', " "), outs, o.fin, list(&o.proc_sent), list(&o.proc_got)), "ok");
+}
+
+fn perms(n: usize) -> Vec<Vec<usize>> {
+    if n == 0 {
+        return vec![vec![]];
+    }
+    let mut out = vec![];
+    for p in perms(n - 1) {
+        for pos in 0..=p.len() {
+            let mut q = p.clone();
+            q.insert(pos, n - 1);
+            out.push(q);
+        }
+    }
+    out
+}
+
+fn base(ctx: &mut Ctx, kinds: Vec<Kind>) -> Scenario {
+    let k = kinds.len();
+    let mut order: Vec<usize> = (0..k).collect();
+    ctx.rng.shuffle(&mut order);
+    Scenario { kinds, order, ending: Ending::Keep, yield_seed: ctx.rng.next(), max_yields: 3, proc_msgs: 0, long_stay: None,
+               close_after_requests: None }
+}
+
+fn random_kind(ctx: &mut Ctx) -> Kind {
+    match ctx.rng.below(20) {
+        0..=5 => Kind::Reply,
+        6 => Kind::Dup,
+        7 => Kind::DupLate,
+        8 | 9 => Kind::Never,
+        10 | 11 => Kind::Late,
+        12 => Kind::Unknown(ctx.rng.below(3) as u8),
+        13 | 14 => Kind::Race,
+        15 => Kind::NoConn,
+        16 | 17 => Kind::DropAt(ctx.rng.below(5) as u8),
+        18 => Kind::DropAwait,
+        _ => Kind::Reply,
+    }
+}
+
+fn go_within(ctx: &mut Ctx, sc: Scenario, family: &str, limit: Duration) {
+    if SUSPICIOUS.load(std::sync::atomic::Ordering::SeqCst) >= 3 {
+        ctx.count("skipped_after_failures");
+        return;
+    }
+    let o = run_scenario_within(&sc, limit);
+    emit(ctx, &sc, &o);
+    ctx.count(family);
+}
+
+fn go(ctx: &mut Ctx, sc: Scenario, family: &str) {
+    if SUSPICIOUS.load(std::sync::atomic::Ordering::SeqCst) >= 3 {
+        // the run has its failing cases; the remaining scenarios would only add waiting time
+        ctx.count("skipped_after_failures");
+        return;
+    }
+    let o = run_scenario(&sc);
+    emit(ctx, &sc, &o);
+    ctx.count(family);
+}
+
+pub fn run(ctx: &mut Ctx) {
+    if ctx.args.first().map(|s| s.as_str()) == Some("probe") {
+        probe(ctx);
+        return;
+    }
+    // 1. every order of the replies for up to 3 (quick) / 4 (thorough) concurrent calls
+    let maxk = ctx.n(3, 4);
+    for k in 1..=maxk {
+        for p in perms(k) {
+            let mut sc = base(ctx, vec![Kind::Reply; k]);
+            sc.order = p;
+            go(ctx, sc, "perm_scenarios");
+        }
+    }
+    ctx.add("exhaustive", 1);
+    // 2. each way a call can end, next to two calls that get their replies
+    let each = [Kind::Dup, Kind::DupLate, Kind::Never, Kind::Late, Kind::Unknown(0), Kind::Unknown(1), Kind::Unknown(2), Kind::Race,
+                Kind::NoConn, Kind::DropAt(0), Kind::DropAt(1), Kind::DropAt(2), Kind::DropAt(3), Kind::DropAt(4), Kind::DropAwait];
+    for kd in each {
+        let pos = ctx.rng.below(3) as usize;
+        let mut kinds = vec![Kind::Reply; 3];
+        kinds[pos] = kd;
+        let sc = base(ctx, kinds);
+        go(ctx, sc, "exit_path_scenarios");
+    }
+    // 3. the write fails: the connection object was closed under the node
+    for _ in 0..ctx.n(2, 6) {
+        let mut sc = base(ctx, vec![Kind::Reply, Kind::Never, Kind::SendErr, Kind::SendErr]);
+        sc.ending = Ending::LocalClose;
+        go(ctx, sc, "send_error_scenarios");
+    }
+    // 4. the peer closes the socket; later calls find no connection
+    for _ in 0..ctx.n(2, 6) {
+        let mut sc = base(ctx, vec![Kind::Reply, Kind::Late, Kind::AfterClose, Kind::AfterClose]);
+        sc.ending = Ending::PeerCloses;
+        go(ctx, sc, "peer_close_scenarios");
+    }
+    // 5. the peer closes while a call sits between the connection lookup and the write (the receiver task ends and
+    //    removes the connection meanwhile): every call must still return
+    for _ in 0..ctx.n(2, 5) {
+        let mut sc = base(ctx, vec![Kind::Closing, Kind::Closing]);
+        sc.long_stay = Some((1, 2, 300_000));
+        sc.close_after_requests = Some(1);
+        go_within(ctx, sc, "close_mid_call_scenarios", Duration::from_secs(30));
+    }
+    // 6. a live local process: its messages reach it, not a call; its numbers under a foreign name reach nobody
+    for _ in 0..ctx.n(2, 6) {
+        let mut sc = base(ctx, vec![Kind::Reply, Kind::Reply, Kind::Never]);
+        sc.proc_msgs = 2;
+        go(ctx, sc, "local_process_scenarios");
+    }
+    // 6b. one long stay at each yield point (the other tasks get through whole calls meanwhile)
+    for p in 0..6u8 {
+        for _ in 0..ctx.n(1, 3) {
+            let kinds = match p {
+                4 => vec![Kind::Never, Kind::Reply],
+                5 => vec![Kind::Race, Kind::Reply, Kind::Never],
+                _ => vec![Kind::Reply, Kind::Reply],
+            };
+            let mut sc = base(ctx, kinds);
+            sc.long_stay = Some((0, p, if p == 5 { 20_000 } else { 60_000 }));
+            go(ctx, sc, "long_stay_scenarios");
+        }
+    }
+    // 7. a reply to the call's numbers under a foreign node name (recorded, not judged)
+    {
+        let sc = base(ctx, vec![Kind::ForeignNode, Kind::Reply]);
+        go(ctx, sc, "foreign_node_scenarios");
+    }
+    // 8. seeded mixes
+    for _ in 0..ctx.n(30, 400) {
+        let k = ctx.rng.range(1, 6) as usize;
+        let kinds: Vec<Kind> = (0..k).map(|_| random_kind(ctx)).collect();
+        let mut sc = base(ctx, kinds);
+        sc.max_yields = ctx.rng.range(0, 4) as u32;
+        if ctx.rng.chance(1, 3) {
+            sc.proc_msgs = ctx.rng.range(1, 3) as u32;
+        }
+        match ctx.rng.below(6) {
+            0 => {
+                sc.ending = Ending::PeerCloses;
+                sc.kinds.push(Kind::AfterClose);
+                sc.order.push(sc.kinds.len() - 1);
+            }
+            1 => {
+                sc.ending = Ending::LocalClose;
+                sc.kinds.push(Kind::SendErr);
+                sc.order.push(sc.kinds.len() - 1);
+            }
+            _ => {}
+        }
+        go(ctx, sc, "random_scenarios");
+    }
+}
+
+fn probe(ctx: &mut Ctx) {
+    // the receiver task ends (peer closed) while a call sits between `connections.get` and `lock().await`
+    let mut sc = base(ctx, vec![Kind::Never, Kind::Never]);
+    sc.long_stay = Some((1, 2, 300000));
+    sc.close_after_requests = Some(1);
+    let o = run_scenario_within(&sc, Duration::from_secs(8));
+    eprintln!("close while a call holds the map reference: {:?}", o.as_ref().map(|o| (o.outcomes.clone(), o.fin, o.trace.clone())));
+    // a call future dropped while it waits
+    for kd in [Kind::DropAwait, Kind::DropAt(0), Kind::DropAt(1), Kind::DropAt(2), Kind::DropAt(3)] {
+        let sc = base(ctx, vec![kd, Kind::Reply]);
+        let o = run_scenario_within(&sc, Duration::from_secs(20));
+        eprintln!("{:?}: {:?}", kd, o.as_ref().map(|o| (o.outcomes.clone(), o.fin, o.trace.clone())));
+    }
+}
